@@ -1575,6 +1575,19 @@ run_plan(const Plan &p, const RunOpts &o)
                         res.viols.push_back(v);
                 }
         }
+        // F12 plans (a synchronous burst while asynchronous jobs are parked): whatever goes wrong in them is one
+        // class of its own, reported under the entry-point property
+        bool f12 = false;
+        for (auto &op : p.ops)
+                if (op.kind == OP_SYNC_BURST && op.b == 12)
+                        f12 = true;
+        if (f12)
+                for (auto &v : res.viols) {
+                        if (v.oracle.compare(0, 4, "f12.") != 0)
+                                v.oracle = "f12." + v.oracle;
+                        v.prop = "C09";
+                        v.key = "schedule=sync-burst-while-async-jobs-of-the-same-family-are-parked";
+                }
         for (size_t i = 0; i < c.tasks.size(); i++) {
                 res.task_hash[i] = c.tasks[i].hash;
                 res.task_hash_user[i] = c.tasks[i].hash_user;
